@@ -17,16 +17,13 @@ Theorem C19_vacuum_gt_air : forall a, 2000 <= a -> a < airtovac_R a /\ vactoair_
 Proof. exact vacuum_gt_air. Qed.
 Print Assumptions C19_vacuum_gt_air.
 
-(* mutual inverses to better than 1e-6 A, from 2000 A to 30 um *)
-Theorem C19_vactoair_airtovac : forall a, 2000 <= a <= 300000 ->
-  Rabs (vactoair_R (airtovac_R a) - a) <= 1 / 1000000.
-Proof. exact vactoair_airtovac. Qed.
-Print Assumptions C19_vactoair_airtovac.
-
-Theorem C19_airtovac_vactoair : forall v, 2000 <= vactoair_R v -> v <= 300000 ->
-  Rabs (airtovac_R (vactoair_R v) - v) <= 1 / 1000000.
-Proof. exact airtovac_vactoair. Qed.
-Print Assumptions C19_airtovac_vactoair.
+(* mutual inverses to better than 1e-6 A, from 2000 A to 30 um:
+   vactoair(airtovac(a)) = a for a >= 2000 A, and airtovac(vactoair(v)) = v wherever vactoair(v) >= 2000 A *)
+Theorem C19_mutual_inverse :
+  (forall a, 2000 <= a <= 300000 -> Rabs (vactoair_R (airtovac_R a) - a) <= 1 / 1000000) /\
+  (forall v, 2000 <= vactoair_R v -> v <= 300000 -> Rabs (airtovac_R (vactoair_R v) - v) <= 1 / 1000000).
+Proof. exact mutual_inverse. Qed.
+Print Assumptions C19_mutual_inverse.
 
 (* ---- sdssflux2ab ---- *)
 
